@@ -68,6 +68,16 @@ CHECKS = {
    note="trusted: harness dump; names introduced only by the rejected text are projected out; interactive statement-at-a-time delivery of R is not used "
         "(valid leading statements would legitimately execute)",
    design="4/C11"),
+ "C12": dict(
+   technique="twin-execution runtime monitor: original vs program reloaded from its own unparse/save text (acceptance, text fixed point, output, outcome, final dump) + ASan/UBSan",
+   text="Sources: every pair of integer/boolean operators in left nesting, right nesting and without source parentheses, unary/binary mixes, comparison "
+        "chains, parenthesised expressions followed by members/@rank, ~60 literal forms (escapes, doubled quotes, hex up to 0xffffffffffffffff, exponents, "
+        ".5, 16/17-digit decimals, DBL_MAX/denormal, typed nulls, constructors), every statement form (chained statements, for step/asc/desc, forall, "
+        "typed declarations, handlers, functions with typed parameters and overloads, returns), generated programs (loops/errors/functions) and the "
+        "repository's own texts. For each: compile, take Executable::unparse and the `save` rendering, compile each in a fresh context (must be "
+        "accepted), re-render (must equal), run original and reloaded in fresh contexts and compare output, error, returned value and final variables.",
+   note="trusted: harness reproduces the save rendering of apps/cli_parser.cpp; texts whose output is not a function of the text (random, getsys, getenv) are excluded",
+   design="4/C12"),
  "C06": dict(
    technique="reference-interpreter monitor (python model of the documented loop/conditional semantics) over generated programs + post-run invariant hooks (control stack, symbol flags) + ASan/UBSan",
    text="Loop headers are enumerated bounded-exhaustively (bounds in {-2..2, INT64_MIN..+2, INT64_MAX-2.., null} x steps {absent,1,2,3,0,-1,null,INT64_MAX} x "
